@@ -337,6 +337,16 @@ func buildCorpus(caseFiles []string, repo string, tier string, rng *rand.Rand) (
 	junk["riffwebp+pngchunks"] = append([]byte("RIFF\x00\x10\x00\x00WEBP"), pngBody[8:]...)
 	junk["jpeg-then-png"] = append(append([]byte{}, jpegBody...), pngBody...)
 	junk["png-damaged-ihdr-type"] = func() []byte { d := append([]byte{}, pngBody...); d[13] = 'X'; return d }()
+	// an iCCP chunk whose compressed stream is nothing but zero bytes (not a zlib stream at all), with further
+	// chunks behind it: zeros parse as empty chunks of type 00000000, so a parser that loses its place inside
+	// such a payload finds its way back or not depending on where it stood (round 12)
+	for _, n := range []int{2, 10, 22, 34, 4086, 4096, 4106, 4810, 8200, 12*1000 + 10, 12*1000 + 11, 70000} {
+		d, _ := gen.BuildPNG([]gen.PNGChunk{gen.IHDR(7, 5, 8, 2, 0), gen.ICCP("zeros", 0, make([]byte, n)), gen.Chunk("tEXt", gen.Payload(30, 8, true)),
+			gen.Chunk("IDAT", gen.Payload(40, 1, false)), gen.Chunk("IEND", nil)})
+		junk[fmt.Sprintf("png-iccp-zeros/%d", n)] = d
+		e, _ := gen.BuildPNG([]gen.PNGChunk{gen.ICCP("zeros", 0, make([]byte, n)), gen.IHDR(7, 5, 8, 2, 0), gen.Chunk("IDAT", gen.Payload(40, 1, false)), gen.Chunk("IEND", nil)})
+		junk[fmt.Sprintf("png-iccp-zeros-first/%d", n)] = e
+	}
 	// fill bytes ahead of the start-of-image marker itself (T.81 B.1.1.2 lets any number precede any marker,
 	// and the JPEG loader takes them): the input does not begin FF D8, so a detector that looks at the
 	// first bytes instead of asking the loaders sees no JPEG (round 11)
